@@ -241,7 +241,10 @@ where
         &self,
         environment: &chalk_ir::Environment<I>,
     ) -> chalk_ir::ProgramClauses<I> {
-        self.ws.db().program_clauses_for_env(environment)
+        // Elaborate the environment through `self` rather than through the wrapped
+        // database, so that the traits and types whose where-clauses contribute
+        // implied bounds are recorded (and later printed in full, not as stubs).
+        crate::clauses::program_clauses_for_env(self, environment)
     }
 
     fn interner(&self) -> I {
